@@ -1,6 +1,7 @@
 package sched
 
 import (
+	"fmt"
 	"math/rand"
 	"testing"
 	"testing/synctest"
@@ -55,7 +56,18 @@ func scripted(t *testing.T, tr *common.Trace, idx int, name string, script isccS
 		w.AddAction("d4", "p2", false)
 		w.AddAction("d5", "p1", false)
 		w.AddAction("d6", "p1", false)
-		f(sc)
+		func() {
+			// A script that cannot go on because the real code is in
+			// another state than it assumes ends here; the trace is
+			// still drained and judged.
+			defer func() {
+				if r := recover(); r != nil {
+					sc.bail() // the real code panicked: the trace ends there
+					tr.Emit(common.Ev{"ev": "script_abort", "msg": fmt.Sprint(r)})
+				}
+			}()
+			f(sc)
+		}()
 		sc.drain()
 	})
 }
